@@ -1,5 +1,6 @@
 import Driver.Util
 import Hv.Misc.SdkTags
+import Hv.Misc.SdkValues
 
 /-! Line-protocol driver for the SDK tag model (domain C22).  Same ops and reply format as
     `/verif/harness/c22.go`.  From the three classifiers of the model it predicts what each probe
@@ -102,7 +103,110 @@ def rtTags (t : Tag) (extra : String) : List Tag :=
   (if extra == "meta" then (metaSlots.filter (fun s => hs != some s)).map slotName else []) ++
   [t] ++ (if hs == some .value then [] else [['Z', 'z']])
 
-def step (cfg : Cfg) (_ : Unit) (line : String) : Unit × String :=
+/-! ### value round trips (`val` ops) -/
+
+namespace V
+open Hv.SdkValues
+
+def kindOf (s : String) : Option Kind :=
+  match s with
+  | "str" => some .str | "bool" => some .bool | "u8" => some .u8 | "u16" => some .u16 | "u32" => some .u32
+  | "u64" => some .u64 | "uint" => some .uint | "i8" => some .i8 | "i16" => some .i16 | "i32" => some .i32
+  | "nstr" => some .str | "ni32" => some .i32 | "nbytes" => some .bytes
+  | "i64" => some .i64 | "int" => some .int | "f32" => some .f32 | "f64" => some .f64 | "bytes" => some .bytes
+  | "strs" | "i64s" | "u32s" => some .slice | "map" => some .map
+  | "pstr" | "pint" | "pstruct" => some .ptr | "time" => some .time | "struct" => some .struct | "arr" => some .array
+  | _ => none
+
+def fieldOf (s : String) : Option Field :=
+  match s with
+  | "stringVal" => some .stringVal | "boolVal" => some .boolVal | "uint8Val" => some .uint8Val | "uint16Val" => some .uint16Val
+  | "uint32Val" => some .uint32Val | "uint64Val" => some .uint64Val | "int8Val" => some .int8Val | "int16Val" => some .int16Val
+  | "int32Val" => some .int32Val | "int64Val" => some .int64Val | "float32Val" => some .float32Val
+  | "float64Val" => some .float64Val | "bytesVal" => some .bytesVal | _ => none
+
+def contentOf (s : String) : Option Content :=
+  match s with
+  | "cString" => some .cString | "cBool" => some .cBool | "cUint8" => some .cUint8 | "cUint16" => some .cUint16
+  | "cUint32" => some .cUint32 | "cUint64" => some .cUint64 | "cInt8" => some .cInt8 | "cInt16" => some .cInt16
+  | "cInt32" => some .cInt32 | "cInt64" => some .cInt64 | "cFloat32" => some .cFloat32 | "cFloat64" => some .cFloat64
+  | "cBytes" => some .cBytes | _ => none
+
+/-- model kinds as the extractor names them (the harness has several Go types per container kind) -/
+def factKind (s : String) : Option Kind :=
+  match s with
+  | "slice" => some .slice | "ptr" => some .ptr | "array" => some .array
+  | _ => kindOf s
+
+def pairs {α β : Type} (fa : String → Option α) (fb : String → Option β) (s : String) : List (α × β) :=
+  (s.splitOn ",").filterMap fun p =>
+    match p.splitOn ">" with
+    | [a, b] => match fa a, fb b with
+      | some x, some y => some (x, y)
+      | _, _ => none
+    | _ => none
+
+def decTable (s : String) : List (Field × List Kind) :=
+  (s.splitOn ",").filterMap fun p =>
+    match p.splitOn ">" with
+    | [a, b] => (fieldOf a).map fun f => (f, (b.splitOn "+").filterMap factKind)
+    | _ => none
+
+def bytesOfHex (s : String) : Option (List Nat) :=
+  if s == "-" then some [] else (unhexBytes s.toList).map (·.map (·.toNat))
+
+def valOf (k : Kind) (desc : String) : Option Val :=
+  match desc.splitOn ":" with
+  | ["s", h] => (bytesOfHex h).map fun b =>
+      .str (String.fromUTF8? (ByteArray.mk (b.map UInt8.ofNat).toArray)).isSome b
+  | ["b", x] => some (.bool (x == "1"))
+  | ["n", x] => x.toInt?.map .num
+  | ["f", x] => x.toNat?.map .flt
+  | ["y", x] => if x == "nil" then some (.bytes none) else (bytesOfHex x).map fun b => .bytes (some b)
+  | ["c", x] => if x == "nil" then some (.cont none) else x.toNat?.map fun n => .cont (some ((List.range n).map (· + 1)))
+  | ["p", x] => if x == "nil" then some (.cont none) else if x == "z" then some (.cont (some [1])) else some (.cont (some [2]))
+  | ["t", "zero"] => some (zero .time)
+  | ["t", s, n, _] => match s.toInt?, n.toNat? with
+    | some s, some n => some (.time s n)
+    | _, _ => none
+  | ["r", x] => if k == .struct || k == .array then some (.stru (if x == "0" then 0 else 1)) else none
+  | _ => none
+
+def isNilOrEmpty : Val → Bool
+  | .bytes b => b.isNone || b == some []
+  | .cont c => c.isNone || c == some []
+  | _ => false
+
+/-- reply and finding for one `val` op -/
+def answer (cfg : Hv.SdkValues.Cfg) (slot : String) (k : Kind) (om : Bool) (v : Val) (first : Option Val := none) : String :=
+  -- a profile field goes through the same typed conversions as the catalog value
+  let r := if slot == "b" then bodyRT cfg k om v
+    else match first with
+      | some v1 => valueUpdRT cfg gobLib k om v1 v
+      | none => valueRT cfg gobLib k om v
+  let stale := slot != "b" && first.isSome && r != valueRT cfg gobLib k om v
+  match r with
+  | .err =>
+    let refused := k == .array || (match v with | .str false _ => true | _ => false)
+    if refused then "err" else "err\t#F:C22-nil-body-field-unreadable"
+  | .ok w =>
+    if w == v then "same"
+    else
+      let cls := if isNilOrEmpty v && isNilOrEmpty w then "nilempty"
+        else if stale && first == some w then "stale" else "diff"
+      let fid :=
+        if stale then "C22-void-overwrite-keeps-old-value"
+        else if om && isEmpty cfg k v then "C22-omitempty-normalises"
+        else match v with
+          | .time _ _ => "C22-value-time-truncated"
+          | .stru _ => "C22-struct-value-dropped"
+          | .cont _ => "C22-gob-nil-empty"
+          | _ => "C22-value-conversion"
+      cls ++ "\t#F:" ++ fid
+
+end V
+
+def step (cfg : Cfg) (vcfg : Hv.SdkValues.Cfg) (_ : Unit) (line : String) : Unit × String :=
   match line.splitOn " " with
   | ["case", _] => ((), line)
   | ["tag", h] =>
@@ -118,6 +222,25 @@ def step (cfg : Cfg) (_ : Unit) (line : String) : Unit × String :=
       else
         let tags := rtTags t extra
         if tags.all (fun x => decide (Agree cfg x)) then ((), "ok") else ((), "bad" ++ flagOf cfg t)
+  | ["val", slot, kind, om, desc] =>
+    match V.kindOf kind with
+    | none => ((), "bad-op")
+    | some k =>
+      match V.valOf k desc with
+      | none => ((), "bad-op")
+      | some v =>
+        if (slot != "v" && slot != "b" && slot != "p") || (om != "0" && om != "1") then ((), "bad-op")
+        else ((), V.answer vcfg slot k (om == "1") v)
+  | ["upd", slot, kind, om, d1, d2] =>
+    match V.kindOf kind with
+    | none => ((), "bad-op")
+    | some k =>
+      match V.valOf k d1, V.valOf k d2 with
+      | some v1, some v2 =>
+        if (slot != "v" && slot != "b" && slot != "p") || (om != "0" && om != "1") then ((), "bad-op")
+        -- the second save replaces the first one entirely: what comes back is the round trip of the LAST value
+        else ((), V.answer vcfg slot k (om == "1") v2 (some v1))
+      | _, _ => ((), "bad-op")
   | _ => ((), "bad-op")
 
 def run (args : List String) : IO UInt32 := do
@@ -126,7 +249,12 @@ def run (args : List String) : IO UInt32 := do
   let cfg : Cfg :=
     ⟨⟨p "encKey", p "encValue", p "encExpireAt", p "encCreatedBy", p "encCreatedAt", p "encUpdatedBy", p "encUpdatedAt"⟩,
      ⟨p "decKey", p "decValue", p "decExpireAt", p "decCreatedBy", p "decCreatedAt", p "decUpdatedBy", p "decUpdatedAt"⟩⟩
-  lineLoop (step cfg) ()
+  let yes (k : String) : Bool := arg kv k == "yes"
+  let vcfg : Hv.SdkValues.Cfg :=
+    ⟨V.pairs V.factKind V.fieldOf (arg kv "valEnc"), V.pairs V.fieldOf V.contentOf (arg kv "valStore"),
+     V.pairs V.contentOf V.fieldOf (arg kv "valRead"), V.decTable (arg kv "valDec"),
+     yes "timeAsUnixSeconds", yes "structValueEncoded", yes "bodySkipsNil", yes "emptyLenZero", yes "emptyNegZero", yes "voidClearsContent"⟩
+  lineLoop (step cfg vcfg) ()
   return 0
 
 end Driver.C22
